@@ -282,10 +282,109 @@ func ModuleReach(roots []*ssa.Function, inModule func(*ssa.Function) bool, resol
 						push(f)
 					case *ssa.MakeClosure:
 						push(f.Fn.(*ssa.Function))
+					case *ssa.Global:
+						// a table of functions (`var checks = []func(...){a, b}`): reading the variable
+						// reaches every function the package initialiser mentions while filling it
+						for _, g := range funcsInInitOf(f) {
+							push(g)
+						}
 					}
 				}
 			}
 		}
 	}
 	return seen
+}
+
+var globalFuncs = map[*ssa.Global][]*ssa.Function{}
+
+// funcsInInitOf lists the functions stored (directly or as elements) into a
+// package-level variable of function, slice-of-function, array or map type by
+// its package initialiser.
+func funcsInInitOf(g *ssa.Global) []*ssa.Function {
+	if fs, ok := globalFuncs[g]; ok {
+		return fs
+	}
+	var out []*ssa.Function
+	globalFuncs[g] = nil
+	if g.Pkg == nil {
+		return nil
+	}
+	init := g.Pkg.Func("init")
+	if init == nil {
+		return nil
+	}
+	// values that flow into g: the stored value, and for composite values the backing local
+	roots := map[ssa.Value]bool{}
+	for _, b := range init.Blocks {
+		for _, in := range b.Instrs {
+			switch x := in.(type) {
+			case *ssa.Store:
+				if x.Addr == ssa.Value(g) {
+					v := x.Val
+					for {
+						switch y := v.(type) {
+						case *ssa.Slice:
+							v = y.X
+							continue
+						case *ssa.UnOp:
+							v = y.X
+							continue
+						}
+						break
+					}
+					roots[v] = true
+				}
+			case *ssa.IndexAddr:
+				if x.X == ssa.Value(g) {
+					roots[x] = true
+				}
+			case *ssa.MapUpdate:
+				if ld, ok := x.Map.(*ssa.UnOp); ok && ld.X == ssa.Value(g) {
+					if f, ok := x.Value.(*ssa.Function); ok {
+						out = append(out, f)
+					}
+				}
+			}
+		}
+	}
+	addFrom := func(v ssa.Value) {
+		for {
+			if ct, ok := v.(*ssa.ChangeType); ok {
+				v = ct.X
+				continue
+			}
+			break
+		}
+		switch f := v.(type) {
+		case *ssa.Function:
+			out = append(out, f)
+		case *ssa.MakeClosure:
+			out = append(out, f.Fn.(*ssa.Function))
+		}
+	}
+	for r := range roots {
+		addFrom(r)
+		if r.Referrers() == nil {
+			continue
+		}
+		for _, u := range *r.Referrers() {
+			switch x := u.(type) {
+			case *ssa.Store:
+				addFrom(x.Val)
+			case *ssa.IndexAddr:
+				if x.Referrers() != nil {
+					for _, uu := range *x.Referrers() {
+						if st, ok := uu.(*ssa.Store); ok {
+							addFrom(st.Val)
+						}
+					}
+				}
+			case *ssa.MapUpdate:
+				addFrom(x.Value)
+			}
+		}
+	}
+	globalFuncs[g] = out
+	return out
 }
